@@ -136,12 +136,16 @@ func (p *Paragraph) AddInlineMath(ommlContent string) {
 func isWellFormedXMLFragment(fragment string) bool {
 	decoder := xml.NewDecoder(strings.NewReader("<x>" + fragment + "</x>"))
 	depth := 0
+	closed := false // 包裹元素 <x> 已经结束：之后不允许再出现任何内容（例如片段 "</x><x>"）
 	for {
 		token, err := decoder.Token()
 		if err == io.EOF {
 			return depth == 0
 		}
 		if err != nil {
+			return false
+		}
+		if closed {
 			return false
 		}
 		switch token.(type) {
@@ -151,6 +155,9 @@ func isWellFormedXMLFragment(fragment string) bool {
 			depth--
 			if depth < 0 {
 				return false
+			}
+			if depth == 0 {
+				closed = true
 			}
 		}
 	}
